@@ -58,6 +58,7 @@ TYPES = {
 
 CLASSES = {
     "Model": S.Model,
+    "WithData": S.WithData,
     "Base": S.Base,
     "Sub1": S.Sub1,
     "Holder": S.Holder,
